@@ -623,6 +623,62 @@ let rec nat_of_int i = if i <= 0 then O else S (nat_of_int (i - 1))
 let render_outs l = String.concat "," (List.map (function
     | HNone -> "-" | HPanic -> "P" | HVal [] -> "e"
     | HVal vs -> String.concat "." (List.map (fun v -> string_of_int (int_of_n v)) vs)) l)
+(* result records `C V <function> <args>`: the model of the value-type API (Codec/ValueApi.v); renderings as in
+   harness/src/valuev.rs: OK .. | E (Err / None) | L (slice of the wrong length for the array conversion) | PANIC *)
+let va_fn_id = function
+  | "mt_from" -> 0 | "mt_new" -> 1 | "method" -> 2 | "class" -> 3 | "family" -> 4 | "algid" -> 5 | "errcode" -> 6
+  | "icmptype" -> 7 | "icmpcode" -> 8 | "attrtype" -> 9 | "changereq" -> 10 | "padding" -> 11 | "chan" -> 12
+  | "respport" -> 13 | "lifetime" -> 14 | "evenport" -> 15 | "icmp" -> 16 | "ctxpad" -> 17
+  | s -> failwith ("value function " ^ s)
+let va_res f = function VOk a -> f a | VErr -> "E" | VPanic -> "PANIC" | VUnmodelled -> "UNMODELLED"
+let va_ok_hex r = va_res (fun b -> "OK " ^ hex_of_bytes b) r
+let va_array n b k = match va_array_from_slice (n_of_int n) b with VOk a -> k a | _ -> "L"
+let va_nonce r =
+  va_res (fun ((q, c), f) ->
+      Printf.sprintf "OK %s %d %s" (hex_of_bytes q) (if c then 1 else 0)
+        (va_res (fun (a, b) -> (if a then "1" else "0") ^ (if b then "1" else "0")) f)) (va_nonce_view r)
+let va_alg_entry e =
+  match String.index_opt e ':' with
+  | Some i -> (nn (String.sub e 0 i), av_parse_opt (String.sub e (i + 1) (String.length e - i - 1)))
+  | None -> failwith "alg entry"
+let va_case (f : string list) : string =
+  let num x = string_of_int (int_of_n x) in
+  match f with
+  | ["num"; fn; lo; n] ->
+    let id = n_of_int (va_fn_id fn) and lo = int_of_string lo and n = int_of_string n in
+    String.concat "," (List.init n (fun k ->
+        va_res (fun l -> String.concat "." (List.map num l)) (va_num_case id (n_of_int (lo + k)))))
+  | ["nonce"; h] -> va_nonce (va_nonce_new (bytes_of_hex h))
+  | ["cookie"; h; k] ->
+    let (a, b) = if k = "n" then (false, false) else let k = int_of_string k in (k land 1 = 1, k land 2 = 2) in
+    va_nonce (va_new_nonce_cookie (bytes_of_hex h) a b)
+  | ["realm"; h] -> va_ok_hex (va_realm_new (bytes_of_hex h))
+  | ["software"; h] -> va_ok_hex (va_software_new (bytes_of_hex h))
+  | ["padding"; h] -> va_ok_hex (va_padding_new (bytes_of_hex h))
+  | ["username"; h] -> va_ok_hex (va_username_new (bytes_of_hex h))
+  | ["userhash"; a; b] -> va_ok_hex (va_userhash_new (bytes_of_hex a) (bytes_of_hex b))
+  | ["stkey"; h] -> va_ok_hex (va_key_short_term (bytes_of_hex h))
+  | ["ltkey"; u; r; p; a] -> va_ok_hex (va_key_long_term (bytes_of_hex u) (bytes_of_hex r) (bytes_of_hex p) (nn a))
+  | ["errcode"; c; h] ->
+    va_res (fun (((code, cl), nu), r) -> Printf.sprintf "OK %s.%s.%s %s" (num code) (num cl) (num nu) (hex_of_bytes r))
+      (va_error_code_view (nn c) (bytes_of_hex h))
+  | ["hdr"; h] ->
+    va_array 20 (bytes_of_hex h) (fun a ->
+        va_res (fun ((ty, ml), x) -> Printf.sprintf "OK %s %s %s" (num ty) (num ml) (hex_of_bytes x)) (va_header_try_from a))
+  | ["fp"; h] -> va_array 4 (bytes_of_hex h) (fun a -> va_res (fun c -> "OK " ^ num c) (va_fingerprint_from a))
+  | ["mi"; h] -> va_array 20 (bytes_of_hex h) (fun a -> va_ok_hex (va_fixed_from (n_of_int 20) a))
+  | ["sha"; h] -> va_array 32 (bytes_of_hex h) (fun a -> va_ok_hex (va_fixed_from (n_of_int 32) a))
+  | ["token"; h] -> va_array 8 (bytes_of_hex h) (fun a -> va_ok_hex (va_fixed_from (n_of_int 8) a))
+  | ["txid"; h] ->
+    va_array 12 (bytes_of_hex h) (fun a ->
+        va_res (fun x -> Printf.sprintf "OK %s %s" (hex_of_bytes x) (hex_of_bytes (va_txid_display x))) (va_fixed_from (n_of_int 12) a))
+  | ["magic"; h] -> va_array 4 (bytes_of_hex h) (fun a -> va_res (fun e -> if e then "OK 1" else "OK 0") (va_cookie_eq a))
+  | ["mtbytes"; h] -> va_array 2 (bytes_of_hex h) (fun a -> va_res (fun (m, c) -> Printf.sprintf "OK %s.%s" (num m) (num c)) (va_msgtype_from_bytes a))
+  | ["uattrs"; l; a] -> "OK " ^ av_list num (List.fold_left va_ua_add (va_ua_from (av_unlist nn l)) (av_unlist nn a))
+  | ["pwalgs"; l] ->
+    "OK " ^ av_list (fun (id, p) -> Printf.sprintf "%s:%s" (num id) (av_tok_opt p)) (va_pa_from (av_unlist va_alg_entry l))
+  | _ -> failwith ("bad value record: " ^ String.concat " " f)
+
 let valueapi_suite () =
   let idx = ref 0 in
   let pending = ref None in
@@ -644,7 +700,8 @@ let valueapi_suite () =
             | _ -> failwith ("script op " ^ o) in
           pending := Some (`Script (List.map parse (String.split_on_char ',' ops)))
         | _ :: "A" :: _ -> pending := Some `Api
-        | _ -> failwith ("bad record: " ^ line)
+        | _ :: "V" :: f -> pending := Some (`Value f)
+        | _ -> failwith ("bad record: " ^ (if n > 200 then String.sub line 0 200 else line))
       end else if n >= 2 && line.[0] = 'I' then begin
         let i = !idx in incr idx;
         let body = String.sub line 2 (n - 2) in
@@ -657,6 +714,14 @@ let valueapi_suite () =
          | Some `Api ->
            emit (Printf.sprintf "M %d ok" i);
            emit (Printf.sprintf "S %d %d C19api -" i (if body = "ok" then 1 else 0))
+         | Some (`Value f) ->
+           emit (Printf.sprintf "M %d %s" i (va_case f));
+           (* the property on the implementation: the call returned (no panic), and every access path to the value built
+              agrees (X = they do not) *)
+           let toks = List.concat_map (String.split_on_char ',') (split_sp body) in
+           let panics = List.mem "PANIC" toks and disagree = List.mem "X" toks in
+           emit (Printf.sprintf "S %d %d C19api %s" i (if panics || disagree then 0 else 1)
+                   (if panics then "value-function-panics" else if disagree then "access-paths-disagree" else "-"))
          | None -> failwith "I without C");
         pending := None
       end
@@ -799,18 +864,37 @@ let absglue_suite () =
       let n = String.length line in
       if n > 2 && line.[0] = 'C' then begin
         match split_sp line with
-        | [_; "P"; _; realms; hexs] | [_; "P"; _; realms; _; _; _; hexs] ->
+        | [_; "P"; _; realms; hexs] ->
           let rs = if realms = "-" then [] else List.map nn (String.split_on_char ',' realms) in
-          pending := Some (rs, bytes_of_hex hexs)
+          pending := Some (rs, bytes_of_hex hexs, None)
+        | [_; "P"; _; realms; cls; meth; toks; hexs] ->
+          let rs = if realms = "-" then [] else List.map nn (String.split_on_char ',' realms) in
+          pending := Some (rs, bytes_of_hex hexs, Some (nn cls, nn meth, toks))
         | _ -> failwith "bad glue record"
       end else if n >= 2 && line.[0] = 'I' then begin
         match !pending with
         | None -> failwith "I without C"
-        | Some (rs, b) ->
+        | Some (rs, b, intended) ->
           let i = !idx in incr idx;
+          (* the Gallina rendering (Concrete.craft_packet) of the abstract packet with the packet's own transaction id: for a
+             packet the client sent, of the harness' abstract reading (the I line); for a crafted one, of the intended tokens *)
+          let txid = List.filteri (fun j _ -> j >= 8 && j < 20) b in
+          let rendering = (match intended, split_sp (String.sub line 2 (n - 2)) with
+              | Some (cls, meth, toks), _ -> Some (cls, meth, toks)
+              | None, cls :: meth :: toks :: _ -> Some (nn cls, nn meth, toks)
+              | None, _ -> None) in
+          let bfield = (match rendering with
+              | None -> ""
+              | Some (cls, meth, toks) ->
+                (match (try Some (parse_attrs toks) with _ -> None) with
+                 | None -> " B=UNPARSED"
+                 | Some attrs -> (match craft_packet cls meth txid attrs with
+                     | Ok bytes -> " B=" ^ hex_of_bytes bytes
+                     | Err -> " B=ERR"
+                     | Panic -> " B=PANIC"))) in
           (match abs_packet rs b with
            | None -> emit (Printf.sprintf "M %d MALFORMED" i)
-           | Some ((cls, meth), attrs) -> emit (Printf.sprintf "M %d %d %d %s" i (int_of_n cls) (int_of_n meth) (tok_attrs attrs)));
+           | Some ((cls, meth), attrs) -> emit (Printf.sprintf "M %d %d %d %s%s" i (int_of_n cls) (int_of_n meth) (tok_attrs attrs) bfield));
           pending := None
       end
     done
